@@ -43,7 +43,6 @@ fn stub_run_constructor(_addr: &Address, _wasm: &[u8; 32], args: &Buf) {
 
 // HARNESS props=C11,C07,C05 tier=quick profile=its_dep shape="local deployment: supply full i128 (neg/0/pos), minter none / third party / deployer / the service; registry entry for the id present (=> address occupied) or not; witness id"
 #[kani::proof]
-#[kani::unwind(164)]
 #[kani::stub(soroban_sdk::token::xc_StellarAssetClient_mint, spec_mint)]
 #[kani::stub(interchain_token::interface::xc_InterchainTokenClient_remove_minter, spec_remove_minter)]
 #[kani::stub(interchain_token::interface::xc_InterchainTokenClient_add_minter, spec_add_minter)]
@@ -116,7 +115,6 @@ fn c11_deploy_interchain_token() {
 
 // HARNESS props=C11 tier=quick profile=its_dep shape="register_canonical_token: arbitrary token address, id present or not, witness id"
 #[kani::proof]
-#[kani::unwind(164)]
 fn c11_register_canonical_token() {
     let c = setup();
     let env = c.env.clone();
@@ -150,7 +148,6 @@ fn c11_register_canonical_token() {
 
 // HARNESS props=C11 tier=quick profile=its_ids shape="two arbitrary inputs to each id derivation; ideal hash"
 #[kani::proof]
-#[kani::unwind(164)]
 fn c11_id_derivations() {
     let c = setup();
     let env = c.env.clone();
